@@ -2,7 +2,6 @@
 import Driver.Atomic
 import Driver.Unique
 import Driver.FiberSync
-import Driver.Pipeline
 import Driver.Pool
 import Driver.When
 import Driver.Shared
@@ -17,8 +16,6 @@ def main (args : List String) : IO UInt32 := do
   match args with
   | ["atomic"] => Yaclib.Driver.Atomic.main false; return 0
   | ["atomic-spec"] => Yaclib.Driver.Atomic.main true; return 0
-  | ["pipe"] => Yaclib.Driver.Pipe.main false; return 0
-  | ["pipe-spec"] => Yaclib.Driver.Pipe.main true; return 0
   | ["validate", "unique"] => Yaclib.Driver.validate Yaclib.Driver.UniqueD.model
   | ["validate", "fibersync"] => Yaclib.Driver.validate Yaclib.Driver.FiberSyncD.model
   | ["validate", "pool"] => Yaclib.Driver.validate Yaclib.Driver.PoolD.model
